@@ -218,6 +218,15 @@ def check(chk):
             single = [bool(mf.eval(t0, env={'first_byte': b})) for b in range(256)]
         except Unfoldable as e:
             raise AnalysisError(str(e))
+        # which arm reads the extra bytes: the test selects the one-byte form when that arm is the else arm, the multi-byte form when it is the body
+        in_body = any(isinstance(n, ast.Name) and n.id == 'num_extra_bytes' for st in tests[0].body for n in ast.walk(st))
+        in_else = any(isinstance(n, ast.Name) and n.id == 'num_extra_bytes' for st in tests[0].orelse for n in ast.walk(st))
+        if not in_body and not in_else and tests[0].body and isinstance(tests[0].body[-1], (ast.Return, ast.Continue, ast.Raise)):
+            in_else = True      # early exit: what follows the test is its else arm
+        if in_body == in_else:
+            raise AnalysisError('%s: the arm of the first-byte test that reads the extra bytes is not recognised' % fname)
+        if in_body:
+            single = [not x for x in single]
         chk.judge(single == [b < 128 for b in range(256)], 'C02.vint', f, '%s: one-byte vint iff first byte < 0x80' % fname,
                   'single-byte test wrong at %s' % [hex(b) for b in range(256) if single[b] != (b < 128)][:8])
         # value mask
